@@ -12,10 +12,17 @@
    ASCON-80pq AEAD and the four incremental digests are Section variables.
    The theorems (Proofs/ClimP.v) name the hypotheses they need about them.
 
-   What the model leaves out (see Props/Properties_C19.v): "-" (stdin/stdout),
-   interactive password entry, option parsing and output-name derivation,
-   the 1 TiB size limit, close(2) results, EINTR/EAGAIN retries, stdout write
-   errors of asconsum. *)
+   The first part (up to main_crypt / main_generate / main_sum) takes the
+   direction, the password source and the (input, output) pairs as given.  The
+   last part of the Section (main_args) is main() of asconcrypt in front of it:
+   argument validation, direction detected from the ".ascon" suffix, output
+   names, interactive passwords (readpass.c), "-" for stdin/stdout, and the
+   result of close(2) on an output descriptor.
+
+   What the model leaves out (see Props/Properties_C19.v): getopt itself (the
+   options arrive parsed), "-" given more than once, directories, the 1 TiB
+   size limit, EINTR/EAGAIN retries, close(2) results on read descriptors,
+   stdout write errors. *)
 From AsconV Require Export Bits.Bytes.
 From Coq Require Import ZArith.
 Local Open Scope nat_scope.
@@ -79,7 +86,13 @@ Inductive emsg :=
 | ENoLines                      (* no properly formatted checksum lines found *)
 | EWarnFormat (n : nat)         (* WARNING: n line(s) improperly formatted *)
 | EWarnMismatch (n : nat)       (* WARNING: n computed checksum(s) did not match *)
-| EWarnRead (n : nat).          (* WARNING: n listed file(s) could not be read *)
+| EWarnRead (n : nat)           (* WARNING: n listed file(s) could not be read *)
+| EUsage                        (* the usage text *)
+| EBothPK                       (* cannot specify both -p and -k *)
+| EOneInput                     (* only one input file allowed with -o *)
+| EDirection                    (* cannot determine direction; specify -e or -d *)
+| ENoTerminal                   (* cannot prompt for a password without a terminal *)
+| EPwMismatch.                  (* passwords do not match *)
 
 Record cnts := { n_open : nat; n_read : nat; n_write : nat; n_rand : nat; n_gets : nat }.
 Record flgs := { f_open : bool; f_read : bool; f_write : bool; f_rand : bool; f_gets : bool }.
@@ -585,5 +598,148 @@ Fixpoint sum_files (alg : nat) (check : bool) (w : world) (files : list path) (e
   end.
 Definition main_sum (alg : nat) (check : bool) (w : world) (files : list path) : world * nat :=
   sum_files alg check w files 0.
+(* main() of asconsum: without FILE arguments the one file is "-" = stdin, which this model keeps in the
+   file system under the name "-" (the program prints that name; it makes no fopen call for it, the model does) *)
+Definition main_sum_argv (alg : nat) (check : bool) (w : world) (files : list path) : world * nat :=
+  main_sum alg check w (match files with [] => [[45%N]] | _ => files end).
+
+(* ==== main() of asconcrypt ======================================================
+   The options arrive parsed (getopt is not modelled): direction, -p, -k, -o and
+   the INPUT names.  [term] is the terminal: whether stdin and stdout are ttys and
+   what successive getpass() calls return (None = NULL).  close(2): [oc k] says that
+   the k-th close of a descriptor opened for WRITING reports an error; [m_close]
+   says whether the tree looks at that result (false = the tree as it is: fileops.c
+   safe_file_close ignores it; true = with fixes/C19-close-errors.patch: message,
+   status 1, output removed).  Closing a read descriptor cannot lose data and is
+   not modelled.  [m_pwlen]: a typed password of PWSIZ bytes or more is refused
+   (true, fixes/C19-typed-password-length.patch) or silently cut (false, as it is). *)
+Record mfix := { m_close : bool; m_pwlen : bool }.
+Definition as_is : mfix := {| m_close := false; m_pwlen := false |}.
+Definition patched : mfix := {| m_close := true; m_pwlen := true |}.
+Definition suffix_ascon : bytes := [46;97;115;99;111;110]%N.                         (* ".ascon" *)
+Definition suffix_decrypted : bytes := [46;100;101;99;114;121;112;116;101;100]%N.    (* ".decrypted" *)
+Definition dash : path := [45]%N.                                                     (* "-" *)
+(* stdin and stdout live in the file system under names no argument can have (they contain a NUL) *)
+Definition stdin_name : path := [0;105]%N.
+Definition stdout_name : path := [0;111]%N.
+
+Definition is_encrypted_filename (p : path) : bool :=
+  (6 <=? length p) && beqb (skipn (length p - 6) p) suffix_ascon.
+(* strip_suffix / add_suffix write into temp_filename[BUFSIZ] *)
+Definition strip_suffix (p : path) : path := firstn (Nat.min (length p - 6) (bufsiz - 1)) p.
+Definition add_suffix (p sfx : path) : path := firstn (bufsiz - 1) (p ++ sfx).
+
+Record cargs := {
+  a_mode : option bool;        (* Some true: -e, Some false: -d, None: neither given *)
+  a_p : option bytes;          (* -p PASSWORD *)
+  a_k : option path;           (* -k KEYFILE *)
+  a_o : option path;           (* -o OUTPUT *)
+  a_in : list path             (* INPUT ... *)
+}.
+Record term := { t_tty : bool; t_pass : list (option bytes) }.
+
+(* the MODE_DETECT loop of main: (direction, mixture) *)
+Fixpoint detect (l : list path) (m : option bool) (mix : bool) : option bool * bool :=
+  match l with
+  | [] => (m, mix)
+  | p :: l' =>
+    if is_encrypted_filename p
+    then match m with Some true => detect l' m true | _ => detect l' (Some false) mix end
+    else match m with Some false => detect l' m true | _ => detect l' (Some true) mix end
+  end.
+
+(* readpass.c read_password(prompt, buf, PWSIZ): the C string getpass returned, cut to PWSIZ-1 bytes.
+   [chk] = the tree refuses a longer one instead (fixes/C19-typed-password-length.patch) *)
+Definition read_password (chk : bool) (w : world) (r : option bytes) : world * option bytes :=
+  match r with
+  | None => (w, None)
+  | Some p => if chk && (PWSIZ <=? length (cstr p)) then (add_err w EPwTooLong, None)
+              else (w, Some (firstn (PWSIZ - 1) (cstr p)))
+  end.
+
+(* the "prompt for it" branch of main: once to decrypt, twice to encrypt *)
+Definition tty_password (chk enc : bool) (t : term) (w : world) : world * option bytes :=
+  if negb (t_tty t) then (add_err w ENoTerminal, None) else
+  let '(w1, r1) := read_password chk w (hd None (t_pass t)) in
+  match r1 with
+  | None => (add_err w1 EUsage, None)
+  | Some p1 =>
+    if enc then
+      let '(w2, r2) := read_password chk w1 (hd None (tl (t_pass t))) in
+      match r2 with
+      | Some p2 => if beqb p1 p2 then (w2, Some p1) else (add_err w2 EPwMismatch, None)
+      | None => (add_err w2 EPwMismatch, None)
+      end
+    else (w1, Some p1)
+  end.
+
+Definition in_name (i : path) : path := if beqb i dash then stdin_name else i.
+Definition out_name (enc : bool) (ao : option path) (i : path) : path :=
+  match ao with
+  | Some p => if beqb p dash then stdout_name else p
+  | None => if beqb i dash then stdout_name
+            else if enc then add_suffix i suffix_ascon
+            else if is_encrypted_filename i then strip_suffix i else add_suffix i suffix_decrypted
+  end.
+
+(* encrypt_file / decrypt_file got as far as opening the output: they made two open calls
+   and the oracle did not fail the second one *)
+Definition opened_out (w w1 : world) : bool :=
+  (n_open (w_cnt w1) =? 2 + n_open (w_cnt w)) && negb (o_open o (S (n_open (w_cnt w)))).
+
+(* the file loop of main with the close(2) result of each output descriptor; kc counts those
+   closes (safe_file_close does not close descriptors 0 and 1) *)
+Fixpoint crypt_files_c (cchk : bool) (oc : nat -> bool) (enc : bool) (pw : bytes) (w : world) (files : list (path * path))
+         (exit_val kc : nat) : world * nat * nat :=
+  match files with
+  | [] => (w, exit_val, kc)
+  | (i, ofile) :: rest =>
+    let '(w1, ok) := (if enc then encrypt_file else decrypt_file) pw w i ofile in
+    if opened_out w w1 && negb (beqb ofile stdout_name) then
+      if cchk && oc kc && ok
+      then crypt_files_c cchk oc enc pw (sys_unlink (add_err w1 EPerror) ofile) rest 1 (S kc)
+      else crypt_files_c cchk oc enc pw w1 rest (if ok then exit_val else 1) (S kc)
+    else crypt_files_c cchk oc enc pw w1 rest (if ok then exit_val else 1) kc
+  end.
+
+Definition no_inputs (a : cargs) : bool := match a_in a with [] => true | _ => false end.
+Definition both_pk (a : cargs) : bool := match a_p a, a_k a with Some _, Some _ => true | _, _ => false end.
+Definition o_with_many (a : cargs) : bool := match a_o a with Some _ => 1 <? length (a_in a) | None => false end.
+Definition direction (a : cargs) : option bool * bool :=
+  match a_mode a with Some e => (Some e, false) | None => detect (a_in a) None false end.
+
+(* main() after getopt, on a world in which stdin is the file stdin_name *)
+Definition main_args0 (fx : mfix) (oc : nat -> bool) (a : cargs) (t : term) (w : world) : world * nat :=
+  if no_inputs a then (add_err w EUsage, 1) else
+  if both_pk a then (add_err w EBothPK, 1) else
+  if o_with_many a then (add_err w EOneInput, 1) else
+  let '(m, mix) := direction a in
+  if mix then (add_err w EDirection, 1) else
+  let enc := match m with Some e => e | None => true end in
+  let '(w1, pw) := match a_p a, a_k a with
+                   | Some p, _ => get_password w (PwArg p)
+                   | None, Some kf => get_password w (PwFile (in_name kf))
+                   | None, None => tty_password (m_pwlen fx) enc t w
+                   end in
+  match pw with
+  | None => (w1, 1)
+  | Some pw =>
+    let files := map (fun i => (in_name i, out_name enc (a_o a) i)) (a_in a) in
+    let '(w2, ex, _) := crypt_files_c (m_close fx) oc enc pw w1 files 0 0 in
+    (w2, ex)
+  end.
+
+(* the same with the bytes of stdin given and what was written to stdout moved to w_out
+   (when the run fails after writing to stdout, the model has no record of the partial output) *)
+Definition stdio_out (w : world) : world :=
+  add_out (with_fs w (fs_del (fs_del (w_fs w) stdout_name) stdin_name)) (content w stdout_name).
+Definition main_args (fx : mfix) (oc : nat -> bool) (a : cargs) (t : term) (stdin : bytes) (w : world) : world * nat :=
+  let '(w', ex) := main_args0 fx oc a t (with_fs w (fs_set (w_fs w) stdin_name stdin)) in
+  (stdio_out w', ex).
+
+(* asconcrypt -g KEYFILE with the close(2) result of the key file *)
+Definition main_generate_c (cchk : bool) (oc : nat -> bool) (w : world) (kf : path) : world * nat :=
+  let '(w1, ex) := main_generate w kf in
+  if (ex =? 0) && cchk && oc 0 then (sys_unlink (add_err w1 EPerror) kf, 1) else (w1, ex).
 
 End Clim.
